@@ -71,8 +71,39 @@ func judgeC01(p *rm.Parsed, mq rm.Request, r rm.Router, o rs.Outcome, lg *rs.Log
 	return ""
 }
 
+// judgeNested: the outer route function's view before and after its nested dispatch, and the
+// nested invocation itself, must each be sound.
+func judgeNested(p *rm.Parsed, q h.Req, r rm.Router, o rs.Outcome) string {
+	outer := rs.ModelReq(q)
+	inner := rm.Request{Method: "GET", Path: q.Header("X-Nest")}
+	for i, inv := range o.Invoked {
+		mq := inner
+		if i == 0 || inv.Phase == "after-nested" {
+			mq = outer
+		}
+		one := rs.Outcome{Status: 200, Invoked: []rs.Invocation{inv}}
+		if why := judgeC01(p, mq, r, one, nil); why != "" {
+			return fmt.Sprintf("record %d (%s): %s", i, inv.Phase, why)
+		}
+	}
+	first, last := o.Invoked[0], o.Invoked[len(o.Invoked)-1]
+	if last.Phase == "after-nested" && (first.ID != last.ID || first.SelPath != last.SelPath || first.SelMethod != last.SelMethod || !h.EqMap(first.Params, last.Params)) {
+		return fmt.Sprintf("after its nested dispatch route #%d sees selected route %s %q params %v, before it saw %s %q params %v", first.ID, last.SelMethod, last.SelPath, last.Params, first.SelMethod, first.SelPath, first.Params)
+	}
+	return ""
+}
+
 func replayC01(rc routingCase, o rs.Outcome) error {
 	p := rm.Parse(rc.Table)
+	if rc.Sweep == "N2" {
+		b := rs.Build(rc.Table, rs.BuildOpt{Router: routerOf(rc.Router), Nest: true})
+		o = b.Do(rc.Req.HTTP(), h.NewRec(), false)
+		fmt.Printf("with nesting enabled: %+v\n", o.Invoked)
+		if why := judgeNested(p, rc.Req, routerOf(rc.Router), o); why != "" {
+			return fmt.Errorf("%s", why)
+		}
+		return nil
+	}
 	if why := judgeC01(p, rs.ModelReq(rc.Req), routerOf(rc.Router), o, nil); why != "" {
 		return fmt.Errorf("%s", why)
 	}
@@ -143,6 +174,64 @@ func checkC01(run *h.Run) {
 			all[name] = st
 		}
 	}
+	// (N2) nested dispatch: a route function dispatches another request on the same container and
+	// then looks at its own request again - the selected route and parameters it sees must still be
+	// its own (per-request state must not alias anything a later selection reuses)
+	for _, router := range []rm.Router{rm.Curly, rm.JSR311} {
+		router := router
+		un := rs.Universe{Tokens: []string{"a", "{x}", "{y}"}, Roots: []string{"/a", "/b", "/{r}"}, MaxSub: 1, Segs: []string{"a", "b", "c"}, MaxPath: 2, RMethods: []string{"GET"}}
+		var paths []string
+		for _, pq := range un.Paths() {
+			if !pq.Slash {
+				paths = append(paths, pq.Path())
+			}
+		}
+		var reqs []h.Req
+		for _, pq := range un.Paths() {
+			if pq.Slash {
+				continue
+			}
+			for _, target := range paths {
+				q := pq
+				q.Method = "GET"
+				q.Hdr = [][2]string{{"X-Nest", target}}
+				reqs = append(reqs, q)
+			}
+		}
+		sp := sweep{"N2", router, pairs(pathAtoms(un)), reqs}
+		name := fmt.Sprintf("%s/N2", router)
+		order = append(order, name)
+		st := runSweep(run, sp, func(w *worker, t rm.Table, p *rm.Parsed, st *sweepStats) {
+			opt := rs.BuildOpt{Router: router, Nest: true}
+			b := rs.Build(t, opt)
+			if b.Panic != "" {
+				return
+			}
+			var cases, disp, nontriv int64
+			for qi := range w.reqs {
+				o := b.Do(w.https[qi], w.rec, false)
+				disp++
+				cases++
+				if len(o.Invoked) < 2 {
+					continue
+				}
+				nontriv++
+				if why := judgeNested(p, w.reqs[qi], router, o); why != "" {
+					qi := qi
+					rc := routingCase{Sweep: "N2", Router: router.String(), Table: t, Req: w.reqs[qi], Observed: o}
+					run.Violate("nested-dispatch/"+router.String(), "", fmt.Sprintf("[%s] %v ; %v : %s", router, t, w.reqs[qi], why), rc, func() bool {
+						b2 := rs.Build(t, opt)
+						return judgeNested(p, w.reqs[qi], router, b2.Do(w.reqs[qi].HTTP(), h.NewRec(), false)) != ""
+					})
+				}
+			}
+			atomic.AddInt64(&st.cases, cases)
+			atomic.AddInt64(&st.dispatches, disp)
+			atomic.AddInt64(&st.nontrivial, nontriv)
+			atomic.AddInt64(&invoked, nontriv)
+		})
+		all[name] = st
+	}
 	cases, disp, nontriv := sweepCoverage(run, all, order)
 	run.Cov["states"] = cases
 	run.Cov["transitions"] = disp
@@ -152,6 +241,6 @@ func checkC01(run *h.Run) {
 	run.Cov["dispatches_in_which_a_route_function_ran"] = invoked
 	run.Cov["distinct_outcomes_sampled"] = outcomes.Len()
 	run.Cov["exhaustive"] = true
-	run.Cov["rule"] = "E1: same sweeps as C02 (P1, P2, H1, H2, X2; thorough adds P3 and larger alphabets), both routers, a logging container filter installed; P1 and H1 also through ServeHTTP. Soundness oracle evaluated on every dispatch in which a route function ran (that is the non-trivial count): method, template admits path (reference model), Consumes admits Content-Type, Produces satisfies Accept, every condition evaluated and true, selected route seen by filter and handler is the route that ran."
+	run.Cov["rule"] = "E1: same sweeps as C02 (P1, P2, H1, H2, X2; thorough adds P3 and larger alphabets), both routers, a logging container filter installed; P1 and H1 also through ServeHTTP; N2: 2-route tables where a route function dispatches a nested request on the same container and then re-reads its own selected route and parameters. Soundness oracle evaluated on every dispatch in which a route function ran (that is the non-trivial count): method, template admits path (reference model), Consumes admits Content-Type, Produces satisfies Accept, every condition evaluated and true, selected route seen by filter and handler is the route that ran."
 	run.Assume = []string{"reference model of DESIGN.md §5", "alphabets bound the claim"}
 }
